@@ -27,6 +27,8 @@
 #include <osmium/visitor.hpp>
 
 #include <cstdint>
+#include <iostream>
+#include <sstream>
 #include <map>
 #include <string>
 #include <utility>
@@ -107,7 +109,8 @@ json rep_json(const Reporter* r) {
 json stats_json(const osmium::area::area_stats& s) {
     return json{{"intersections", s.intersections}, {"open_rings", s.open_rings}, {"duplicate_segments", s.duplicate_segments},
                 {"touching_rings", s.touching_rings}, {"wrong_role", s.wrong_role}, {"outer_rings", s.outer_rings},
-                {"inner_rings", s.inner_rings}};
+                {"inner_rings", s.inner_rings}, {"simple_case", s.area_simple_case}, {"touching_case", s.area_touching_rings_case},
+                {"complex_case", s.area_really_complex_case}};
 }
 
 json ring_pts(const osmium::NodeRefList& ring, const Embedding& em, const std::map<std::pair<int, int>, std::vector<osmium::object_id_type>>& ids_at) {
@@ -310,6 +313,33 @@ json run_variant(const Input& in, const std::string& v) {
         out["rings"] = rings;
         stats = assembler.stats();
         have_stats = true;
+        if (rings.empty() && stats.intersections == 0 && stats.open_rings == 0) {
+            // No rings although no problem was found: ask the library why (it only says so in its debug output).
+            // This is a label for the log, not a verdict.
+            osmium::area::AssemblerConfig config2 = config;
+            config2.problem_reporter = nullptr;
+            config2.debug_level = 1;
+            std::ostringstream captured;
+            std::streambuf* const old = std::cerr.rdbuf(captured.rdbuf());
+            try {
+                osmium::area::Assembler assembler2{config2};
+                osmium::memory::Buffer outbuf2{1024 * 1024, osmium::memory::Buffer::auto_grow::yes};
+                if (entry == "way") {
+                    assembler2(inbuf.get<osmium::Way>(wpos.at(0)), outbuf2);
+                } else {
+                    std::vector<const osmium::Way*> ways2;
+                    for (const auto p : wpos) ways2.push_back(&inbuf.get<osmium::Way>(p));
+                    for (const auto& rel : inbuf.select<osmium::Relation>()) assembler2(rel, ways2, outbuf2);
+                }
+            } catch (...) {
+                std::cerr.rdbuf(old);
+                throw;
+            }
+            std::cerr.rdbuf(old);
+            const std::string txt = captured.str();
+            if (txt.find("Exceeded max depth") != std::string::npos) out["why"] = "exceeded_max_depth";
+            else if (txt.find("Ignoring polygon with") != std::string::npos) out["why"] = "too_many_split_locations";
+        }
     }
     if (have_stats) out["st"] = stats_json(stats);
     out["rep"] = rep_json(with_reporter ? &reporter : nullptr);
